@@ -45,6 +45,19 @@ def as_fourier(pp, ma, grid, site):
     raise Violation('space_flag_invalid', site, {'flag': s})
 
 
+def as_real_with_bound(pp, ma, grid, site):
+    """(data in real space, elementwise magnitude bound of what was summed to obtain it).  A Fourier-stored
+    array is brought to real space with the harness' matrix; the rounding error of that sum at point i is
+    eps*N*(|R| |data|)_i -- norm-wise, not relative to the (possibly tiny) result at that point."""
+    d = np.asarray(ma.data, dtype=float)
+    s = space_name(pp, ma)
+    if s == 'Real':
+        return d, np.abs(d)
+    if s == 'Fourier':
+        return tr(grid.R, d), tr(np.abs(grid.R), np.abs(d))
+    raise Violation('space_flag_invalid', site, {'flag': s})
+
+
 def stored(pp, P, grid, site='solve'):
     n = len(P.sys.types) if hasattr(P, 'sys') else None
     out = {}
@@ -101,8 +114,8 @@ def check_closures(pp, spec, P, res, grid, r_user, site, ctx=None):
     types = spec['types']
     n = len(types)
     N = grid.N
-    h = as_real(pp, P.totalCorr, grid, site)
-    c = as_real(pp, P.directCorr, grid, site)
+    h, hb = as_real_with_bound(pp, P.totalCorr, grid, site)
+    c, cb = as_real_with_bound(pp, P.directCorr, grid, site)
     F = np.asarray(res.fun, dtype=float)
     if F.size != N * n * n:
         raise Violation('residual_shape', site, {'size': int(F.size), 'want': N * n * n})
@@ -122,7 +135,7 @@ def check_closures(pp, spec, P, res, grid, r_user, site, ctx=None):
                 cstar = np.asarray(cl.calculate(np.copy(r_user), np.copy(g_out)), dtype=float)
             core = r_user <= sysgen.sigma_ab(spec, a, b)
             S = sysgen.closure_slope_sup(p['closure'], g_out - Fr, g_out + Fr, u, core)
-            scale = np.maximum(1.0, np.maximum(np.abs(c[:, i, j]), np.maximum(np.abs(g_out), np.abs(cstar))))
+            scale = np.maximum(1.0, np.maximum(np.maximum(cb[:, i, j], hb[:, i, j]), np.maximum(np.abs(g_out), np.abs(cstar))))
             bound = S * Fr * (1 + 1e-6) + TOL * scale
             diff = np.abs(c[:, i, j] - cstar)
             judge = np.isfinite(bound) & np.isfinite(cstar)
